@@ -283,36 +283,79 @@ func c07r2(w *World, rr *RuleRun) {
 		}
 	}
 	have := w.dispatcherMethod("Have")
-	pop := w.dispatcherMethod("Pop")
-	for _, site := range w.AllCallsTo(w.P.LibFuncs, pop) {
+	// every call of a dispatcher method that removes an entry and hands back its state (Pop, or a
+	// fused comma-ok form of Have+Pop)
+	isDisp := func(f *ssa.Function) bool {
+		return f != nil && strings.HasPrefix(shortFuncName(f), "(*transactions.Dispatcher[")
+	}
+	yieldsState := func(f *ssa.Function) bool {
+		rs := f.Signature.Results()
+		if rs.Len() == 0 {
+			return false
+		}
+		bt, isB := rs.At(0).Type().Underlying().(*types.Basic)
+		return !(isB && bt.Kind() == types.Bool)
+	}
+	canPanic := func(f *ssa.Function) bool {
+		p := false
+		eachInstr([]*ssa.Function{f}, func(_ *ssa.Function, ins ssa.Instruction) {
+			if _, ok := ins.(*ssa.Panic); ok {
+				p = true
+			}
+		})
+		return p
+	}
+	eachInstr(w.P.LibFuncs, func(_ *ssa.Function, site ssa.Instruction) {
 		c := callInstrCommon(site)
+		if c == nil || c.IsInvoke() {
+			return
+		}
+		f := c.StaticCallee()
+		if !isDisp(f) || !w.removingLookup(f) || !yieldsState(f) || len(c.Args) < 2 {
+			return
+		}
 		kv := c.Args[1]
 		var haveIns ssa.Instruction
-		w.Require(rr, site, "Pop only under Have(k)=true for the same key", func(alt *Alt) (bool, string) {
-			k := w.FE.Resolve(alt, kv)
-			if alt.Has("b", true, func(x *Term) bool { return isCall(x, have) && len(x.Args) == 2 && termEq(x.Args[1], k) }) {
-				return true, "Have(k)"
+		if canPanic(f) {
+			w.Require(rr, site, "Pop only under Have(k)=true for the same key", func(alt *Alt) (bool, string) {
+				k := w.FE.Resolve(alt, kv)
+				if alt.Has("b", true, func(x *Term) bool { return isCall(x, have) && len(x.Args) == 2 && termEq(x.Args[1], k) }) {
+					return true, "Have(k)"
+				}
+				return false, "Pop panics on an unknown key: an unsolicited datagram would crash the node"
+			})
+			for _, h := range w.CallsIn(site.Parent(), have, false) {
+				if termEq(w.TS.Of(callInstrCommon(h).Args[1]), w.TS.Of(kv)) {
+					haveIns = h
+				}
 			}
-			return false, "Pop panics on an unknown key: an unsolicited datagram would crash the node"
-		})
-		for _, h := range w.CallsIn(site.Parent(), have, false) {
-			if termEq(w.TS.Of(callInstrCommon(h).Args[1]), w.TS.Of(kv)) {
-				haveIns = h
+			if haveIns != nil {
+				ok, why := w.LK.SameCriticalSection(mu, haveIns, site)
+				rr.At(w, site, "Have and Pop are in one critical section of Server.mu", ok, why)
 			}
+		} else {
+			rr.At(w, site, "Pop only under Have(k)=true for the same key", true, shortFuncName(f)+" tests and removes in one call and reports absence instead of panicking")
+			rr.At(w, site, "Have and Pop are in one critical section of Server.mu", true, "one call")
 		}
-		if haveIns != nil {
-			ok, why := w.LK.SameCriticalSection(mu, haveIns, site)
-			rr.At(w, site, "Have and Pop are in one critical section of Server.mu", ok, why)
+		if haveIns != nil || !canPanic(f) {
 			st := w.LK.StatesAt(mu, site)
 			rr.At(w, site, "Pop runs under the write lock", allHeld(st, true), "lock states "+statesString(st))
 		}
-	}
+	})
 	// handleResponse: one site, receiver is the popped transaction
 	sites := w.AllCallsTo(w.P.LibFuncs, hr)
 	rr.Oblige(shortFuncName(hr), "handleResponse has exactly one call site", "-", len(sites) == 1, fmt.Sprintf("%d sites", len(sites)))
 	for _, s := range sites {
-		recv := w.TS.Of(callInstrCommon(s).Args[0])
-		rr.At(w, s, "the reply is delivered to the transaction that was popped for its key", isCall(recv, pop), "receiver "+trunc(recv.String(), 160))
+		v := callInstrCommon(s).Args[0]
+		if ex, ok := v.(*ssa.Extract); ok && ex.Index == 0 {
+			v = ex.Tuple
+		}
+		okRecv := false
+		if c, ok := v.(*ssa.Call); ok {
+			f := c.Call.StaticCallee()
+			okRecv = isDisp(f) && w.removingLookup(f) && yieldsState(f)
+		}
+		rr.At(w, s, "the reply is delivered to the transaction that was popped for its key", okRecv, "receiver "+trunc(w.TS.Of(callInstrCommon(s).Args[0]).String(), 160))
 		msg := w.TS.Of(callInstrCommon(s).Args[1])
 		rr.At(w, s, "the delivered message is the datagram just decoded", w.withinUp(s.Parent(), pp) && msg.Op == OpDeref && msg.Args[0].Op == OpLocal, "message "+trunc(msg.String(), 100))
 	}
@@ -323,9 +366,21 @@ func c07r2(w *World, rr *RuleRun) {
 		rr.At(w, ins, "transaction.onResponse is set only by Query", w.withinUp(ins.Parent(), q), "in "+shortFuncName(ins.Parent()))
 	}
 	// unknown-key branch: from the Have=false edge to exit nothing but logging
+	var presence []ssa.Value
 	for _, h := range w.CallsIn(pp, have, false) {
-		hv, _ := h.(ssa.Value)
-		if hv == nil || hv.Referrers() == nil {
+		if hv, _ := h.(ssa.Value); hv != nil {
+			presence = append(presence, hv)
+		}
+	}
+	eachInstr([]*ssa.Function{pp}, func(_ *ssa.Function, ins ssa.Instruction) {
+		if ex, ok := ins.(*ssa.Extract); ok && ex.Index == 1 {
+			if c, ok := ex.Tuple.(*ssa.Call); ok && isDisp(c.Call.StaticCallee()) {
+				presence = append(presence, ex)
+			}
+		}
+	})
+	for _, hv := range presence {
+		if hv.Referrers() == nil {
 			continue
 		}
 		for _, r := range *hv.Referrers() {
@@ -715,7 +770,8 @@ func c07r8(w *World, rr *RuleRun) {
 				return
 			}
 			name := shortFuncName(c.StaticCallee())
-			if !strings.HasPrefix(name, "(*transactions.Dispatcher[") || !(strings.Contains(name, ".Have") || strings.Contains(name, ".Pop")) {
+			// every dispatcher method that looks a key up (all but the counter)
+			if !strings.HasPrefix(name, "(*transactions.Dispatcher[") || strings.Contains(name, "NumActive") || len(c.Args) < 2 {
 				return
 			}
 			n++
